@@ -145,7 +145,7 @@ def run_bmc(rep, core, name, N, modes, inits, oblig, replay_fn, delivery="list",
             handle_cex(rep, hn, ex, replay_fn)
 
 
-def handle_cex(rep, hn, ex, replay_fn, limit=40):
+def handle_cex(rep, hn, ex, replay_fn, limit=40, ideal=False):
     seen = 0
     for r in ex.results:
         if r["status"] != "cex":
@@ -159,6 +159,10 @@ def handle_cex(rep, hn, ex, replay_fn, limit=40):
             continue
         fails = replay_fn(c)
         rep.replays_validated += 1
+        if not fails and ideal:
+            rep.artefacts.append({"harness": hn, "model": c, "failing": r.get("failing"),
+                                  "note": "model does not reproduce under IEEE arithmetic (rational idealisation); inconclusive"})
+            continue
         if not fails:
             rep.harness_errors.append("%s: solver model did not reproduce on the real code: %s failing=%s" % (hn, c, r.get("failing")))
             continue
